@@ -156,6 +156,8 @@ def run(ctx):
                         '%s in the cross-model move operates on the wrong model (parameter _%s instead of _%d)' % (nm, p, roles[nm]), mf.where(pos),
                         sample={'fn': 'move_element_full', 'call': nm, 'model': 'destination' if roles[nm] == dst[0] else 'source'})
         C.floor('C04-SIB-model', n, 5)
+    import scope
+    scope.closed_world(C, P, 'C04-PAIR-index')
     must_identifiable(C, P)
     return C.finish('Pairing of structural edits with path-index maintenance, decided on the MIR of every body (dominance / all-Ok-paths queries over '
                     'type-resolved events), uniqueness check before every name installation, segment-safe prefix re-keying. '
